@@ -227,8 +227,12 @@ func vC44_step() {
 	vAssume(vC44_invOrder(x) && vC44_invBinding(x, 0) && vC44_invBinding(x, 1) && vC44_invPending(x))
 
 	// ---- the message
-	// case split: 0 RegisterConsumer, 1 Request, 2 Ack, 3 Produced, 4 StoredAck, 5 tick, 6 Terminated
-	kind := vCase("kind")
+	// case split: 0 RegisterConsumer, 1 Request (plain top-up), 2 Ack, 3 Produced, 4 StoredAck, 5 tick, 6 Terminated,
+	// 7 Request with ViaTimeout (asks for a resend)
+	kind, viaTimeout := vCase("kind"), false
+	if kind == 7 {
+		kind, viaTimeout = 1, true
+	}
 	sender := prod
 	senderWorker := -1 // which worker's *current* controller sends
 	switch vChoose("sender", 6) {
@@ -266,7 +270,7 @@ func vC44_step() {
 		reqConfirmed = vNondetInt64("reqConfirmed")
 		if kind == 1 {
 			reqUpTo = vNondetInt64("reqUpTo")
-			m, err := commands.VRequest(vRD_pick(sessionCur, "S", "S0"), vRD_pick(nonceCur, "N", "N2"), reqConfirmed, reqUpTo, vNondetBool("viaTimeout"))
+			m, err := commands.VRequest(vRD_pick(sessionCur, "S", "S0"), vRD_pick(nonceCur, "N", "N2"), reqConfirmed, reqUpTo, viaTimeout)
 			vAssume(err == nil)
 			msg = m
 		} else {
